@@ -140,7 +140,9 @@ func (v variant) dsl(dir string, t time.Duration, label, pending string) string 
 	return b.String()
 }
 
-// countingStore sees every enqueue the ingress attempts, with the store's answer.
+// countingStore sees every enqueue the ingress attempts, with the store's answer. Requests carry a payload that is
+// unique per (nonce, signed timestamp), so a stored message names the pair it belongs to whatever the gateway does
+// with the headers.
 type countingStore struct {
 	queue.Store
 	mu  sync.Mutex
@@ -149,8 +151,8 @@ type countingStore struct {
 }
 
 type enq struct {
-	Nonce, TS, Target string
-	OK                bool
+	Payload, Target string
+	OK              bool
 }
 
 func (c *countingStore) Enqueue(env queue.Envelope) error {
@@ -163,7 +165,7 @@ func (c *countingStore) Enqueue(env queue.Envelope) error {
 	c.mu.Unlock()
 	err := c.Store.Enqueue(env)
 	c.mu.Lock()
-	c.log = append(c.log, enq{Nonce: env.Headers["X-Nonce"], TS: env.Headers["X-Timestamp"], Target: env.Target, OK: err == nil})
+	c.log = append(c.log, enq{Payload: string(env.Payload), Target: env.Target, OK: err == nil})
 	c.mu.Unlock()
 	return err
 }
@@ -220,14 +222,17 @@ func runtimeLabel(a *app.VerifApp) string {
 	return s
 }
 
+func payloadOf(nonce string, ts int) string { return fmt.Sprintf("payload of %s@ts%d", nonce, ts) }
+
+// queued: the queue, oldest first.
 func (w *world2) queued() []string {
-	resp, err := w.cs.ListMessages(queue.MessageListRequest{Order: "asc", Limit: 1000, IncludeHeaders: true})
+	resp, err := w.cs.ListMessages(queue.MessageListRequest{Order: "asc", Limit: 1000, IncludePayload: true})
 	if err != nil {
 		return []string{"ERR " + err.Error()}
 	}
 	var out []string
 	for _, it := range resp.Items {
-		out = append(out, fmt.Sprintf("%s:%s@%s>%s", it.State, it.Headers["X-Nonce"], it.Headers["X-Timestamp"], it.Target))
+		out = append(out, fmt.Sprintf("%s:%s>%s", it.State, strings.TrimPrefix(string(it.Payload), "payload of "), it.Target))
 	}
 	return out
 }
@@ -237,7 +242,7 @@ func (w *world2) apply(o aop) (code int) {
 	switch o.Kind {
 	case "send":
 		rec := httptest.NewRecorder()
-		w.a.Ingress.ServeHTTP(rec, signed(o.Nonce, w.tsOf(o.TS), o.Valid))
+		w.a.Ingress.ServeHTTP(rec, signedBody(o.Nonce, w.tsOf(o.TS), o.Valid, payloadOf(o.Nonce, o.TS)))
 		return rec.Code
 	case "clock":
 		w.gp++
@@ -372,11 +377,10 @@ func judge2(w *world2, pre st2, o aop, ob obs2) (s st2, v verdict) {
 		d := ob.now.Sub(time.Unix(w.tsOf(o.TS), 0))
 		inTol := d >= -s.CurTol && d <= s.CurTol
 		pair := fmt.Sprintf("%s@ts%d", o.Nonce, o.TS)
-		tsHdr := fmt.Sprint(w.tsOf(o.TS))
 		var stored []string
 		for _, e := range ob.enqs {
-			if e.Nonce != o.Nonce || e.TS != tsHdr {
-				return bad("foreign-envelope", "envelope with nonce %q / timestamp %q enqueued while %s was served", e.Nonce, e.TS, o)
+			if e.Payload != payloadOf(o.Nonce, o.TS) {
+				return bad("foreign-envelope", "envelope with payload %q enqueued while %s was served", e.Payload, o)
 			}
 			if e.OK {
 				stored = append(stored, e.Target)
@@ -402,24 +406,15 @@ func judge2(w *world2, pre st2, o aop, ob obs2) (s st2, v verdict) {
 			}
 			seen[t] = true
 		}
-		if ob.code == 202 {
-			want := w.v.targets()
-			if len(want) == 0 && len(stored) != 1 {
-				return bad("202-without-every-copy", "answered 202 with %d stored copies on a route with one target", len(stored))
-			}
-			for _, t := range want {
-				if !seen[t] {
-					return bad("202-without-every-copy", "answered 202 but target %s did not get its copy (stored: %v)", t, stored)
-				}
-			}
-			if len(want) > 0 && len(stored) != len(want) {
-				return bad("202-without-every-copy", "answered 202 with copies %v on a route with targets %v", stored, want)
-			}
+		if want := max(1, w.v.Targets); ob.code == 202 && len(stored) != want {
+			return bad("202-without-every-copy", "answered 202 with %d stored copies %v on a route with %d targets", len(stored), stored, want)
 		}
 		if pre.Pair[pair] == "E" && o.Valid && inTol {
 			v.lab += ":retry-after-refusal-with-nothing-stored"
 		}
 		switch {
+		case pre.Pair[pair] == "H" && o.Valid && inTol:
+			v.lab += ":replay-refused"
 		case len(stored) > 0:
 			s.Pair[pair] = "H"
 			if ob.code != 202 {
@@ -566,7 +561,6 @@ func sendsOf(pairs ...string) (l []aop) {
 var (
 	reloadOps  = []aop{{Kind: "reload", Tol: tol}, {Kind: "reload", Tol: 2 * tol}}
 	drainOps   = []aop{{Kind: "drain"}, {Kind: "drain1"}}
-	mgmtQuick  = []aop{{Kind: "mgmt", Method: "put", Route: "/h"}, {Kind: "mgmt", Method: "delete"}, {Kind: "mgmt", Method: "put", Route: "/h", Pending: "restart"}, {Kind: "mgmt", Method: "delete", Pending: "restart"}, {Kind: "mgmt", Method: "put", Route: "/g", Pending: "secret"}}
 	badReloads = []aop{{Kind: "reload", Pending: "restart"}, {Kind: "reload", Pending: "secret"}}
 )
 
@@ -591,12 +585,12 @@ func cat(ls ...[]aop) (l []aop) {
 // management mutations, both failing reloads).
 func variants(thorough bool) []variant {
 	if !thorough {
-		fan := cat(sendsOf("n1", "n2"), reloadOps, drainOps)
+		fan := cat(sendsOf("n1", "n2", "n1@1"), reloadOps, drainOps)
 		return []variant{
-			{Name: "fanout2-reject-depth1", Targets: 2, MaxDepth: 1, Drop: "reject", Grid: gridShort, Ops: fan},
-			{Name: "fanout2-reject-depth2", Targets: 2, MaxDepth: 2, Drop: "reject", Grid: gridShort, Ops: fan},
-			{Name: "fanout2-drop_oldest-depth1", Targets: 2, MaxDepth: 1, Drop: "drop_oldest", Grid: gridShort, Ops: fan},
-			{Name: "pull-management", Targets: 0, Grid: gridMid, Ops: cat(sendsOf("n1", "n1@1"), reloadOps, []aop{{Kind: "drain"}}, mgmtQuick, badReloads[:1])},
+			{Name: "fanout2-reject-depth1", Targets: 2, MaxDepth: 1, Drop: "reject", Grid: gridMid, Ops: fan},
+			{Name: "fanout2-reject-depth2", Targets: 2, MaxDepth: 2, Drop: "reject", Grid: gridMid, Ops: fan},
+			{Name: "fanout2-drop_oldest-depth1", Targets: 2, MaxDepth: 1, Drop: "drop_oldest", Grid: gridMid, Ops: fan},
+			{Name: "pull-management", Targets: 0, Grid: gridMid, Ops: cat(sendsOf("n1", "n1@1"), reloadOps, []aop{{Kind: "drain"}}, mgmtAll(), badReloads)},
 		}
 	}
 	all := cat(sendsOf("n1", "n1!", "n2", "n1@1"), reloadOps, drainOps, mgmtAll(), badReloads)
@@ -661,19 +655,29 @@ func afterChild(t *testing.T, job int) {
 	r.Add("states", res.States)
 	r.Add("transitions", res.Transitions)
 	r.Add("traces_validated_against_impl", res.Transitions)
-	outcomes := map[string]int64{}
+	outcomes, answers := map[string]int64{}, map[string]bool{}
 	for k, n := range res.Outcomes {
 		outcomes[k] = n
 		r.Distinct(v.Name + "|" + k)
 		switch {
-		case strings.HasPrefix(k, "send:202"):
-			r.Add("after_accepts", n)
+		case strings.HasPrefix(k, "send:202"), strings.HasSuffix(k, ":partial"):
+			r.Add("after_requests_honoured", n)
+		case strings.HasSuffix(k, ":replay-refused"):
+			r.Add("after_replays_refused", n)
 		case strings.HasPrefix(k, "send:"):
-			r.Add("after_refusals", n)
+			r.Add("after_other_refusals", n)
 		}
 		if code, _, ok := strings.Cut(strings.TrimPrefix(k, "send:"), ":retry-after-refusal-with-nothing-stored"); ok {
-			r.Assume(fmt.Sprintf("a request that passed the nonce check, was refused for capacity and stored nothing, and is retried unchanged (same nonce) inside the tolerance: the statement does not decide it and both answers are accepted; this tree answers %s", code))
+			answers[code] = true
 		}
+	}
+	if len(answers) > 0 {
+		var l []string
+		for c := range answers {
+			l = append(l, c)
+		}
+		sort.Strings(l)
+		r.Assume("a request that passed the nonce check, was refused for capacity and stored nothing, and is retried unchanged (same nonce) inside the tolerance: the statement does not decide it and both answers are accepted; this tree answers " + strings.Join(l, " / "))
 	}
 	r.Set("after:"+v.Name, map[string]any{"states": res.States, "transitions": res.Transitions, "depth_completed": res.DepthCompleted, "exhaustive": res.Exhaustive, "cap_hit": res.CapHit,
 		"targets": max(1, v.Targets), "max_depth": v.MaxDepth, "drop_policy": v.Drop, "clock_positions": len(v.Grid), "alphabet": hist2text(v.Ops), "outcomes": outcomes})
